@@ -380,7 +380,7 @@ not negative, the caller takes the result for valid and assembles the bit patter
 theorem binary_marker_overflow_witness :
     binary FTy.f64 2 ⟨2 ^ 63 + 2 ^ 10, 40000, false, true⟩ false = .ok ⟨2 ^ 63 + 2 ^ 10, 8307⟩ ∧
     extendedToFloat FTy.f64 ⟨2 ^ 63 + 2 ^ 10, 8307⟩ = 0x8730000000000400 ∧
-    roundNE f64 ((2 ^ 63 + 2 ^ 10) * 2 ^ 40000) 1 = 0x7ff0000000000000 ∧
+    roundNE f64 ((2 ^ 63 + 2 ^ 10) <<< 40000) 1 = 0x7ff0000000000000 ∧
     ¬ MarkerOk FTy.f64 2 ⟨2 ^ 63 + 2 ^ 10, 40000, false, true⟩ := by
   refine ⟨by decide +kernel, by decide +kernel, by decide +kernel, ?_⟩
   unfold MarkerOk
